@@ -1,3 +1,3 @@
 """Claimed evidence level per property (mirrors MANIFEST.json) and a one-line explanation."""
-LEVELS = {k: "proof" for k in ("C18", "C06", "C13", "C15", "C16", "C17")}
+LEVELS = {k: "proof" for k in ("C18", "C06", "C13", "C15", "C16", "C17", "C12", "C14")}
 EXPLAIN = {}
